@@ -755,3 +755,15 @@ def u_collectives(ctx):
                         ctx.check(f"C06/collectives/{rel}:{func.name}:{node.lineno}/no_exit_from_a_rank_dependent_branch_before_later_collectives",
                                   not (leaves and later), detail=f"{leaves} while {later} follow")
     ctx.check("C06/collectives/rank_dependent_branches_checked", checked >= 30)
+
+
+# a progress display must not change what a rank does: on every rank the wrapped loop is iterated completely (a worker rank that
+# skips its loop never takes part in the point-to-point exchange and the collectives inside it) - the C02 unit on
+# Indicator.__iter__, root and non-root, run here as well
+def _register_shared():
+    from . import C02 as _C02
+    unit(P, "Indicator.__iter__", fuc=["yaw.utils.logging:Indicator.__iter__", "yaw.utils.logging:Indicator.__init__"],
+         cases=[dict(root=r) for r in (True, False)])(_C02.u_indicator)
+
+
+# _register_shared() is called by the driver after this module is fully imported (no import cycles)
